@@ -27,10 +27,14 @@ func RunAggregationLoop(ext *extractor.Extractor, aggregator aggregation.Aggrega
 		for {
 			select {
 			case <-outputDone:
+				verifTrace("t.done", "", 0, 0)
 				return
 			case <-time.After(100 * time.Millisecond):
+				verifTrace("t.tick", "", 0, 0)
 				outputMutex.Lock()
+				verifTrace("t.locked", "", 0, 0)
 				writeOutput()
+				verifTrace("t.rendered", "", 0, 0)
 				outputMutex.Unlock()
 			}
 		}
@@ -44,19 +48,28 @@ PROCESSING_LOOP:
 	for {
 		select {
 		case <-exitSignal:
+			verifTrace("m.signal", "", 0, 0)
 			break PROCESSING_LOOP
 		case matchBatch, more := <-reader:
 			if !more {
+				verifTrace("m.eof", "", 0, 0)
 				break PROCESSING_LOOP
 			}
+			verifTrace("m.recv", "", uint64(len(matchBatch)), 0)
 			outputMutex.Lock()
+			verifTrace("m.locked", "", 0, 0)
 			for _, match := range matchBatch {
 				aggregator.Sample(match.Extracted)
 			}
+			verifTrace("m.unlock", "", 0, 0)
 			outputMutex.Unlock()
 		}
 	}
+	verifTrace("m.done.send", "", 0, 0)
 	outputDone <- true
+	verifTrace("m.done.sent", "", 0, 0)
 
+	verifTrace("m.final.begin", "", 0, 0)
 	writeOutput()
+	verifTrace("m.final.end", "", 0, 0)
 }
